@@ -19,8 +19,8 @@ type tokSet struct {
 	s   map[int64]bool
 }
 
-func topSet() tokSet              { return tokSet{top: true} }
-func oneTok(k int64) tokSet       { return tokSet{s: map[int64]bool{k: true}} }
+func topSet() tokSet        { return tokSet{top: true} }
+func oneTok(k int64) tokSet { return tokSet{s: map[int64]bool{k: true}} }
 func (a tokSet) clone() tokSet {
 	if a.top {
 		return a
@@ -84,10 +84,10 @@ func (a parserState) join(b parserState) (parserState, bool) {
 }
 
 type TokRel struct {
-	Tokens map[string]tokSet   // node type name ("*ast.Identifier") -> token types its Token may carry
-	Keys   map[*ssa.Function]map[string]map[int64]bool // parse function -> registry -> keys
-	ParamPosition []string // node types also built in parameter position with an arbitrary token (excluded)
-	Entry map[*ssa.Function]parserState // possible cur/peek token types at each parser function's entry
+	Tokens        map[string]tokSet                           // node type name ("*ast.Identifier") -> token types its Token may carry
+	Keys          map[*ssa.Function]map[string]map[int64]bool // parse function -> registry -> keys
+	ParamPosition []string                                    // node types also built in parameter position with an arbitrary token (excluded)
+	Entry         map[*ssa.Function]parserState               // possible cur/peek token types at each parser function's entry
 }
 
 var tokRelCache = map[*Ctx]*TokRel{}
